@@ -100,9 +100,10 @@ func (st LString) Type() LValueType { return LTString }
 // fmt.Formatter interface
 func (st LString) Format(f fmt.State, c rune) {
 	switch c {
-	case 'd', 'i':
-		if nm, err := parseNumber(string(st)); err != nil {
-			defaultFormat(nm, f, 'd')
+	case 'd', 'i', 'c', 'o', 'u', 'x', 'X', 'e', 'E', 'f', 'g', 'G':
+		if nm, err := parseNumber(string(st)); err == nil {
+			// a numeric string is converted, as lua_Number arguments are
+			nm.Format(f, c)
 		} else {
 			defaultFormat(string(st), f, 's')
 		}
